@@ -1,5 +1,7 @@
 package dialer
 
+import "time"
+
 // C20 harness accessors (injected by `go test -overlay` only while the C20 check builds package
 // cmd's test binary; never part of /repo): the reload suppression counter is an unexported
 // package variable.
@@ -14,3 +16,6 @@ func VerifC20ResetSuppression() {
 // VerifC20SuppressedNow reports proxyFailureSuppressedForReload() (counter > 0 or inside the
 // post-reload quiesce window).
 func VerifC20SuppressedNow() bool { return proxyFailureSuppressedForReload() }
+
+// VerifC20Quiesce is the length of the post-reload mute window.
+func VerifC20Quiesce() time.Duration { return reloadFailureQuiesce }
